@@ -514,6 +514,52 @@ impl Check for C03Pipeline {
                 }
             }
         }
+        // the same options under their documented other names (--choose / -c for --select, --where /
+        // -f, --break-by / -b, --combine / -g, --order-by / -s, -k, --limit / -t, -u, -e): one case in four
+        if input.len() % 4 == 2 {
+            let mut a5: Vec<String> = Vec::new();
+            for (i, a) in a1.iter().enumerate() {
+                let (name, value) = match a.split_once('=') {
+                    Some((n, v)) => (n, Some(v)),
+                    None => (a.as_str(), None),
+                };
+                let pick = (c.order_seed >> (i % 60)) & 1 == 1;
+                let (long, short): (&str, &str) = match name {
+                    "--select" => ("--choose", "-c"),
+                    "--filter" => ("--where", "-f"),
+                    "--split-by" => ("--break-by", "-b"),
+                    "--group-by" => ("--combine", "-g"),
+                    "--merge" => ("--combine", "--group-by"),
+                    "--sort-by" => ("--order-by", "-s"),
+                    "--skip" => ("--skip", "-k"),
+                    "--take" => ("--limit", "-t"),
+                    "--unique" => ("--unique", "-u"),
+                    "--set" => ("--set", "-e"),
+                    _ => {
+                        a5.push(a.clone());
+                        continue;
+                    }
+                };
+                match value {
+                    None => a5.push(if pick { short.to_string() } else { long.to_string() }),
+                    // (-g takes an optional value: written with its long name)
+                    Some(v) if pick && short.len() == 2 && short != "-g" && !v.starts_with('-') && !v.is_empty() => {
+                        a5.push(short.to_string());
+                        a5.push(v.to_string());
+                    }
+                    Some(v) => a5.push(format!("{}={}", long, v)),
+                }
+            }
+            // a bare --combine / --group-by would take a following word as its key: keep it last
+            if let Some(pos) = a5.iter().position(|x| x == "--combine" || x == "--group-by") {
+                let g = a5.remove(pos);
+                a5.push(g);
+            }
+            let o5 = run(&a5, &input);
+            if o5.res != o1.res || o5.stdout != o1.stdout {
+                return CaseResult::Fail(format!("the documented other names of the options give another result: {:?} gives {} {}; {:?} gives {} {}", a5, o5.res.short(), esc_trunc(&o5.stdout, 300), a1, o1.res.short(), esc_trunc(&o1.stdout, 300)));
+            }
+        }
         let got: Vec<RVal> = match split_rows(&o1.stdout, b"\n") {
             Ok(r) => r.into_iter().map(|x| x.0).collect(),
             Err(e) => return CaseResult::Fail(format!("unreadable output: {}", e)),
@@ -695,7 +741,7 @@ impl Check for C03Large {
 }
 
 pub fn run_all(ctx: &mut Ctx) {
-    ctx.rule = "option subsets over --set (variables, macros), --split-by, --filter, 0..3 --select (with /name/ back-references), --unique, 0..3 --sort-by with directions, --skip 0..3, --take absent|0..6, --group-by | --merge, --only-objects-and-arrays, each with a generated expression (type-directed, depth <= 2) x 0..12 inputs built from 1..3 base records (so keys repeat and tie; variants differ in a tag field; some top-level scalars) x three argument orders (relative order of the --select and --sort-by options kept). Oracle: (1) the three argument orders give byte-identical results, and so does (one case in four) the spelling with option and value as separate words and the input as a file argument behind them; (2) the rows equal the reference pipeline (split -> filter -> select -> unique -> sort -> skip/take -> group|merge after only-objects) with expressions evaluated by the reference evaluator; cases whose expressions hit a point the documentation leaves open are judged by (1) only. non-trivial = judged by the model, >= 2 stateful/structural stages and >= 3 inputs. C03.large: the same two oracles on 100..5000 rows (12000 thorough) derived from a seed (1..5 distinct sort keys, rows without the key, optional nested lists for --split-by, repeating rows under --unique), plain field expressions in every stage, limits around 1024 and around the row count; non-trivial additionally needs >= 1000 rows".into();
+    ctx.rule = "option subsets over --set (variables, macros), --split-by, --filter, 0..3 --select (with /name/ back-references), --unique, 0..3 --sort-by with directions, --skip 0..3, --take absent|0..6, --group-by | --merge, --only-objects-and-arrays, each with a generated expression (type-directed, depth <= 2) x 0..12 inputs built from 1..3 base records (so keys repeat and tie; variants differ in a tag field; some top-level scalars) x three argument orders (relative order of the --select and --sort-by options kept). Oracle: (1) the three argument orders give byte-identical results, and so does (one case in four) the spelling with option and value as separate words and the input as a file argument behind them, and (one case in four) the spelling with the documented other names and short flags of the options; (2) the rows equal the reference pipeline (split -> filter -> select -> unique -> sort -> skip/take -> group|merge after only-objects) with expressions evaluated by the reference evaluator; cases whose expressions hit a point the documentation leaves open are judged by (1) only. non-trivial = judged by the model, >= 2 stateful/structural stages and >= 3 inputs. C03.large: the same two oracles on 100..5000 rows (12000 thorough) derived from a seed (1..5 distinct sort keys, rows without the key, optional nested lists for --split-by, repeating rows under --unique), plain field expressions in every stage, limits around 1024 and around the row count; non-trivial additionally needs >= 1000 rows".into();
     ctx.assumptions = vec!["reference evaluator as in C04; rows compared as values (number spelling and object member order of synthesised records free)".into()];
     C03Pipeline.run(ctx);
     C03Large.run(ctx);
